@@ -63,20 +63,37 @@ func NewTimeSequenceHandler(precision time.Duration) *TimeSequenceHandler {
 	}
 }
 
+// A receiver keeps one replay filter per source router, so all signed frames a
+// router sends must carry increasing sequence times, whichever session they are
+// sealed under - or none, as raw signed frames. They share this sequence.
+var (
+	outSeqLock sync.Mutex
+	outSeq     time.Time
+)
+
+// NextSeqTime returns the next outgoing sequence time of this router.
+func NextSeqTime(precision time.Duration) time.Time {
+	outSeqLock.Lock()
+	defer outSeqLock.Unlock()
+
+	// Round current time and increase until newer than last.
+	next := time.Now().Round(precision)
+	for !next.After(outSeq) {
+		next = next.Add(precision)
+	}
+
+	// Save next as last outgoing sequence time.
+	outSeq = next
+	return next
+}
+
 // Next returns the next sequence time.
 func (sh *TimeSequenceHandler) Next() time.Time {
 	sh.lock.Lock()
 	defer sh.lock.Unlock()
 
-	// Round current time and increase until newer than last.
-	next := time.Now().Round(sh.precision)
-	for !next.After(sh.out) {
-		next = next.Add(sh.precision)
-	}
-
-	// Save next as last outgoing sequence time.
-	sh.out = next
-	return next
+	sh.out = NextSeqTime(sh.precision)
+	return sh.out
 }
 
 // Check checks if the given sequence time should be accepted.
